@@ -46,6 +46,7 @@ VARIABLES sc, map,       \* process registered under the identity (0 = none)
           tpc, tproc, tmsg, nturn,    \* worker tokens
           mpc, mproc, fires,          \* manager
           zpc, ztarget, stopping,     \* shutdown thread, system shuttingDown flag
+          stopped,     \* Stop has returned: the dispatcher is gone, nothing that is scheduled from now on ever runs
           \* observation of the callbacks (what the property talks about)
           actDone,     \* per process: OnActivate has returned for the current activation
           deN,         \* per process: OnDeactivate calls of the current activation
@@ -54,7 +55,7 @@ VARIABLES sc, map,       \* process registered under the identity (0 = none)
           sent, got    \* accepted bookkeeping: ids told / ids handed to OnReceive, with the process
 
 vars == <<sc, map, nproc, act, pill, mb, sch, armed, closed, spc, sidx, starget, sack, sf, tpc, tproc, tmsg, nturn,
-          mpc, mproc, fires, zpc, ztarget, stopping, actDone, deN, inRecv, inDe, sent, got>>
+          mpc, mproc, fires, zpc, ztarget, stopping, stopped, actDone, deN, inRecv, inDe, sent, got>>
 
 Procs == 1..MaxProc
 Turns == 1..MaxTurns
@@ -72,7 +73,7 @@ Init == /\ sc \in Scenarios /\ map = 1 /\ nproc = 1
         /\ sack = [s \in Senders |-> ""] /\ sf = ""
         /\ tpc = [k \in Turns |-> "none"] /\ tproc = [k \in Turns |-> 0] /\ tmsg = [k \in Turns |-> NoMsg] /\ nturn = 0
         /\ mpc = "idle" /\ mproc = 0 /\ fires = 0
-        /\ zpc = (IF sc.shutdowns > 0 THEN "idle" ELSE "done") /\ ztarget = 0 /\ stopping = FALSE
+        /\ zpc = (IF sc.shutdowns > 0 THEN "idle" ELSE "done") /\ ztarget = 0 /\ stopping = FALSE /\ stopped = FALSE
         /\ actDone = [p \in Procs |-> p = 1] /\ deN = [p \in Procs |-> 0] /\ inRecv = {} /\ inDe = {}
         /\ sent = {} /\ got = {}
 
@@ -81,8 +82,10 @@ Init == /\ sc \in Scenarios /\ map = 1 /\ nproc = 1
 Enq(p, m) == IF act[p]
              THEN /\ mb' = [mb EXCEPT ![p] = Append(@, m)]
                   /\ IF sch[p] = "Idle"
-                     THEN /\ sch' = [sch EXCEPT ![p] = "Sched"] /\ nturn < MaxTurns /\ nturn' = nturn + 1
-                          /\ tpc' = [tpc EXCEPT ![nturn + 1] = "take"] /\ tproc' = [tproc EXCEPT ![nturn + 1] = p]
+                     THEN /\ sch' = [sch EXCEPT ![p] = "Sched"]
+                          /\ IF stopped THEN UNCHANGED <<nturn, tpc, tproc>>       \* pushed onto a dispatcher that no longer runs
+                             ELSE /\ nturn < MaxTurns /\ nturn' = nturn + 1
+                                  /\ tpc' = [tpc EXCEPT ![nturn + 1] = "take"] /\ tproc' = [tproc EXCEPT ![nturn + 1] = p]
                      ELSE UNCHANGED <<sch, nturn, tpc, tproc>>
              ELSE UNCHANGED <<mb, sch, nturn, tpc, tproc>>
 
@@ -112,11 +115,11 @@ SCall(s) ==
              ELSE nproc < MaxProc /\ nproc' = nproc + 1 /\ starget' = [starget EXCEPT ![s] = nproc + 1]
           /\ actDone' = [actDone EXCEPT ![starget'[s]] = FALSE] /\ deN' = [deN EXCEPT ![starget'[s]] = 0]
           /\ UNCHANGED <<sidx, sack>>
-  /\ UNCHANGED <<sc, map, act, pill, mb, sch, armed, closed, tpc, tproc, tmsg, nturn, mpc, mproc, fires, zpc, ztarget, stopping, inRecv, inDe, sent, got>>
+  /\ UNCHANGED <<sc, map, act, pill, mb, sch, armed, closed, tpc, tproc, tmsg, nturn, mpc, mproc, fires, zpc, ztarget, stopping, stopped, inRecv, inDe, sent, got>>
 
 SActEnter(s) == /\ spc[s] = "actenter" /\ spc' = [spc EXCEPT ![s] = "actexit"]
                 /\ UNCHANGED <<sc, map, nproc, act, pill, mb, sch, armed, closed, sidx, starget, sack, sf, tpc, tproc, tmsg, nturn,
-                               mpc, mproc, fires, zpc, ztarget, stopping, actDone, deN, inRecv, inDe, sent, got>>
+                               mpc, mproc, fires, zpc, ztarget, stopping, stopped, actDone, deN, inRecv, inDe, sent, got>>
 
 \* OnActivate returned: activated := true, markActivity, Register; finalize: grains.Set; the single flight ends and the
 \* callers that waited on it share its result
@@ -127,13 +130,13 @@ SActExit(s) ==
      /\ map' = p /\ sf' = "" /\ UNCHANGED armed
      /\ spc' = [t \in Senders |-> IF t = s \/ spc[t] = "sfwait" THEN "recv" ELSE spc[t]]
      /\ starget' = [t \in Senders |-> IF spc[t] = "sfwait" THEN p ELSE starget[t]]
-  /\ UNCHANGED <<sc, nproc, pill, mb, sch, closed, sidx, sack, tpc, tproc, tmsg, nturn, mpc, mproc, fires, zpc, ztarget, stopping,
+  /\ UNCHANGED <<sc, nproc, pill, mb, sch, closed, sidx, sack, tpc, tproc, tmsg, nturn, mpc, mproc, fires, zpc, ztarget, stopping, stopped,
                  deN, inRecv, inDe, sent, got>>
 
 SRecv(s) == /\ spc[s] = "recv" /\ spc' = [spc EXCEPT ![s] = "wait"]
             /\ Enq(starget[s], Msg(s))
             /\ sent' = sent \cup {<<Msg(s).id, starget[s], act[starget[s]]>>}
-            /\ UNCHANGED <<sc, map, nproc, act, pill, armed, closed, sidx, starget, sack, sf, tmsg, mpc, mproc, fires, zpc, ztarget, stopping,
+            /\ UNCHANGED <<sc, map, nproc, act, pill, armed, closed, sidx, starget, sack, sf, tmsg, mpc, mproc, fires, zpc, ztarget, stopping, stopped,
                            actDone, deN, inRecv, inDe, got>>
 
 \* the Tell returns: the handler acknowledged it, or nobody ever will (dropped by receive: the caller times out)
@@ -142,7 +145,7 @@ SRet(s) == /\ spc[s] = "wait"
               \/ <<Msg(s).id, starget[s], FALSE>> \in sent
            /\ NextMsg(s, sack[s])
            /\ UNCHANGED <<sc, map, nproc, act, pill, mb, sch, armed, closed, starget, sf, tpc, tproc, tmsg, nturn, mpc, mproc, fires,
-                          zpc, ztarget, stopping, actDone, deN, inRecv, inDe, sent, got>>
+                          zpc, ztarget, stopping, stopped, actDone, deN, inRecv, inDe, sent, got>>
 
 \* ---------------------------------------------------------------- the grain's turn
 \* a reply to whoever told the message (NoErr / Err); the shutdown thread's pill has nobody waiting on the reply
@@ -170,27 +173,27 @@ GTake(k) == /\ tpc[k] = "take"
             /\ LET p == tproc[k] IN
                IF sch[p] = "Sched" THEN Commit(k, p, Adv(act[p], mb[p], pill[p], sack, armed[p]))
                ELSE tpc' = [tpc EXCEPT ![k] = "end"] /\ UNCHANGED <<mb, pill, sack, armed, tmsg, sch>>
-            /\ UNCHANGED <<sc, map, nproc, act, closed, spc, sidx, starget, sf, tproc, nturn, mpc, mproc, fires, zpc, ztarget, stopping,
+            /\ UNCHANGED <<sc, map, nproc, act, closed, spc, sidx, starget, sf, tproc, nturn, mpc, mproc, fires, zpc, ztarget, stopping, stopped,
                            actDone, deN, inRecv, inDe, sent, got>>
 
 GEnter(k) == /\ tpc[k] = "renter" /\ tpc' = [tpc EXCEPT ![k] = "rexit"]
              /\ inRecv' = inRecv \cup {<<tproc[k], k>>}
              /\ got' = got \cup {<<tmsg[k].id, tproc[k]>>}
              /\ UNCHANGED <<sc, map, nproc, act, pill, mb, sch, armed, closed, spc, sidx, starget, sack, sf, tproc, tmsg, nturn,
-                            mpc, mproc, fires, zpc, ztarget, stopping, actDone, deN, inDe, sent>>
+                            mpc, mproc, fires, zpc, ztarget, stopping, stopped, actDone, deN, inDe, sent>>
 
 \* OnReceive returns (it called NoErr): reply to the sender, then on with the loop
 GExit(k) == /\ tpc[k] = "rexit"
             /\ inRecv' = inRecv \ {<<tproc[k], k>>}
             /\ LET p == tproc[k] IN Commit(k, p, Adv(act[p], mb[p], pill[p], Ack(sack, tmsg[k], "ok"), armed[p]))
-            /\ UNCHANGED <<sc, map, nproc, act, closed, spc, sidx, starget, sf, tproc, nturn, mpc, mproc, fires, zpc, ztarget, stopping,
+            /\ UNCHANGED <<sc, map, nproc, act, closed, spc, sidx, starget, sf, tproc, nturn, mpc, mproc, fires, zpc, ztarget, stopping, stopped,
                            actDone, deN, inDe, sent, got>>
 
 \* handlePoisonPill -> deactivate -> OnDeactivate, on the turn
 GDeEnter(k) == /\ tpc[k] = "deenter" /\ tpc' = [tpc EXCEPT ![k] = "deexit"]
                /\ inDe' = inDe \cup {<<tproc[k], k>>} /\ deN' = [deN EXCEPT ![tproc[k]] = @ + 1]
                /\ UNCHANGED <<sc, map, nproc, act, pill, mb, sch, armed, closed, spc, sidx, starget, sack, sf, tproc, tmsg, nturn,
-                              mpc, mproc, fires, zpc, ztarget, stopping, actDone, inRecv, sent, got>>
+                              mpc, mproc, fires, zpc, ztarget, stopping, stopped, actDone, inRecv, sent, got>>
 
 \* OnDeactivate returned: grains.Delete, activated := false, onPoisonPill := false, deactivated closed; handlePoisonPill
 \* replies; the loop goes on with whatever is still queued on the now inactive process
@@ -200,14 +203,14 @@ GDeExit(k) ==
   /\ LET p == tproc[k] IN
      /\ map' = 0 /\ closed' = [closed EXCEPT ![p] = TRUE] /\ act' = [act EXCEPT ![p] = FALSE]
      /\ Commit(k, p, Adv(FALSE, mb[p], FALSE, Ack(sack, tmsg[k], "ok"), FALSE))
-  /\ UNCHANGED <<sc, nproc, spc, sidx, starget, sf, tproc, nturn, mpc, mproc, fires, zpc, ztarget, stopping, actDone, deN, inRecv, sent, got>>
+  /\ UNCHANGED <<sc, nproc, spc, sidx, starget, sf, tproc, nturn, mpc, mproc, fires, zpc, ztarget, stopping, stopped, actDone, deN, inRecv, sent, got>>
 
 \* ---------------------------------------------------------------- the passivation manager
 PFire == /\ mpc = "idle" /\ fires < sc.passivates /\ ~stopping
          /\ \E p \in Procs : armed[p] /\ mproc' = p
          /\ mpc' = "try" /\ fires' = fires + 1
          /\ UNCHANGED <<sc, map, nproc, act, pill, mb, sch, armed, closed, spc, sidx, starget, sack, sf, tpc, tproc, tmsg, nturn,
-                        zpc, ztarget, stopping, actDone, deN, inRecv, inDe, sent, got>>
+                        zpc, ztarget, stopping, stopped, actDone, deN, inRecv, inDe, sent, got>>
 
 \* passivationTry: not active / poisoned -> false; else (no reentrancy) deactivate right here: unregister, ... OnDeactivate
 PTry == /\ mpc = "try"
@@ -217,34 +220,34 @@ PTry == /\ mpc = "try"
            ELSE \* repaired design: the decision travels through the mailbox and is taken on the turn (as for reentrant grains)
                 /\ mpc' = "idle" /\ armed' = [armed EXCEPT ![mproc] = FALSE]
                 /\ Enq(mproc, [id |-> 0, kind |-> "pill", from |-> "m"])
-        /\ UNCHANGED <<sc, map, nproc, act, pill, closed, spc, sidx, starget, sack, sf, tmsg, mproc, fires, zpc, ztarget, stopping,
+        /\ UNCHANGED <<sc, map, nproc, act, pill, closed, spc, sidx, starget, sack, sf, tmsg, mproc, fires, zpc, ztarget, stopping, stopped,
                        actDone, deN, inRecv, inDe, sent, got>>
 
 PDeEnter == /\ mpc = "deenter" /\ mpc' = "deexit"
             /\ inDe' = inDe \cup {<<mproc, 0>>} /\ deN' = [deN EXCEPT ![mproc] = @ + 1]
             /\ UNCHANGED <<sc, map, nproc, act, pill, mb, sch, armed, closed, spc, sidx, starget, sack, sf, tpc, tproc, tmsg, nturn,
-                           mproc, fires, zpc, ztarget, stopping, actDone, inRecv, sent, got>>
+                           mproc, fires, zpc, ztarget, stopping, stopped, actDone, inRecv, sent, got>>
 
 PDeExit == /\ mpc = "deexit" /\ mpc' = "idle"
            /\ inDe' = inDe \ {<<mproc, 0>>}
            /\ DeactDone(mproc)
            /\ UNCHANGED <<sc, nproc, mb, sch, armed, spc, sidx, starget, sack, sf, tpc, tproc, tmsg, nturn, mproc, fires, zpc, ztarget,
-                          stopping, actDone, deN, inRecv, sent, got>>
+                          stopping, stopped, actDone, deN, inRecv, sent, got>>
 
 \* ---------------------------------------------------------------- system shutdown
 \* Stop: shuttingDown := true; passivator.Stop waits for the manager's run loop; ...; poisonAllGrains: snapshot of the
 \* registered processes: an inactive one is just deleted, an active one gets a PoisonPill through receive
 ZCall == /\ zpc = "idle" /\ mpc = "idle"
          /\ stopping' = TRUE
-         /\ IF map # 0 /\ act[map] THEN zpc' = "recv" /\ ztarget' = map /\ UNCHANGED map
-            ELSE zpc' = "done" /\ map' = 0 /\ UNCHANGED ztarget
+         /\ IF map # 0 /\ act[map] THEN zpc' = "recv" /\ ztarget' = map /\ UNCHANGED <<map, stopped>>
+            ELSE zpc' = "done" /\ map' = 0 /\ stopped' = TRUE /\ UNCHANGED ztarget
          /\ UNCHANGED <<sc, nproc, act, pill, mb, sch, armed, closed, spc, sidx, starget, sack, sf, tpc, tproc, tmsg, nturn, mpc, mproc, fires,
                         actDone, deN, inRecv, inDe, sent, got>>
 ZRecv == /\ zpc = "recv" /\ zpc' = "wait"
          /\ Enq(ztarget, [id |-> 0, kind |-> "pill", from |-> "z"])
-         /\ UNCHANGED <<sc, map, nproc, act, pill, armed, closed, spc, sidx, starget, sack, sf, tmsg, mpc, mproc, fires, ztarget, stopping,
+         /\ UNCHANGED <<sc, map, nproc, act, pill, armed, closed, spc, sidx, starget, sack, sf, tmsg, mpc, mproc, fires, ztarget, stopping, stopped,
                         actDone, deN, inRecv, inDe, sent, got>>
-ZRet == /\ zpc = "wait" /\ closed[ztarget] /\ zpc' = "done"
+ZRet == /\ zpc = "wait" /\ closed[ztarget] /\ zpc' = "done" /\ stopped' = TRUE
         /\ UNCHANGED <<sc, map, nproc, act, pill, mb, sch, armed, closed, spc, sidx, starget, sack, sf, tpc, tproc, tmsg, nturn, mpc, mproc,
                        fires, ztarget, stopping, actDone, deN, inRecv, inDe, sent, got>>
 
